@@ -192,15 +192,33 @@ def evaluate(chk: core.Check, n_hist):
     if bad_ref:
         raise RuntimeError(f'reference runs did not complete: {bad_ref} {sim[bad_ref[0]]}')
     specs = [gen_history(rng, pool, chk.scratch, k) for k in range(n_hist)]
+    seeds = [1 + (k * 7) % 50 for k in range(n_hist)]
+    # the same short history under several hash seeds: contents whose outcome could depend on set / dict iteration order (one segment given in list
+    # form and in enumerated form, duplicated parameters, defaults), plus a direct in-process call of the simulator's main() with a two-entry argv
+    for hs in (0, 1, 2, 3, 5, 8, 13, 21):
+        d = Path(chk.scratch) / f'hs{hs}'
+        d.mkdir(exist_ok=True)
+        ops = []
+        for j, c in enumerate(['list-vs-enum', 'dup-a', 'seg-default', 'ok0']):
+            ops += [['w', str(d / f'in{j}.txt'), c], ['q', str(d / f'in{j}.txt'), 0, 'fresh']]
+        ops += [['m', str(d / 'in3.txt')], ['q', str(d / 'in3.txt'), 1, 'reused']]
+        specs.append({'start_cwd': str(d), 'contents': pool, 'ops': ops, 'dir': str(d), 'overrides': OVERRIDES})
+        seeds.append(hs)
     with ThreadPoolExecutor(8) as ex:
-        results = list(ex.map(run_history, [(s, 1 + (k * 7) % 50, None) for k, s in enumerate(specs)]))
+        results = list(ex.map(run_history, [(s, sd, None) for s, sd in zip(specs, seeds)]))
     lines = []
     for k, spec in enumerate(specs):
         # ids without separators for the line protocol
         pid = {p: f'p{j}' for j, p in enumerate(sorted({o[1] for o in spec['ops'] if o[0] in ('q', 'w', 'wv')}))}
         did = {dd: f'd{j}' for j, dd in enumerate(sorted({o[1] for o in spec['ops'] if o[0] == 'c'} | {spec['start_cwd']}))}
         ops = []
+        cur_dir = spec['start_cwd']
         for o in spec['ops']:
+            if o[0] == 'm':
+                ops.append(f'c:{did[cur_dir]}')     # a direct call of main(): outside the client state machine — a no-op for the model
+                continue
+            if o[0] == 'c':
+                cur_dir = o[1]
             if o[0] == 'q':
                 ops.append(f'q:{pid[o[1]]}:{o[2]}')
             elif o[0] in ('w', 'wv'):
@@ -226,6 +244,12 @@ def evaluate(chk: core.Check, n_hist):
                 chk.tag('request/' + ('with-overrides/' if o[0] == 'qp' else '') + ('fail' if rec['out'] == 'F' else 'ok') + ('/cached-client' if o[2] else '/uncached'))
                 if rec['out'] == 'F':
                     nontriv = True
+            if o[0] == 'm':
+                chk.tag('direct-main/' + ('argv-kept' if rec['argv_ok'] else 'argv-CHANGED'))
+                if not rec['argv_ok']:
+                    chk.fail('C08/argv-changed-after-direct-main', 'a direct in-process call of the simulator\'s main() left the caller\'s sys.argv changed',
+                             {**base, 'op_index': j, 'op': o, 'argv_after': rec['argv']})
+                continue      # (main() itself leaves the process in the package directory; its callers — client, command line — restore it)
             if not rec['cwd_ok']:
                 chk.fail('C08/cwd-changed-after-' + ('failed' if rec['out'] == 'F' else 'successful') + '-request', 'a request left the caller\'s working directory changed',
                          {**base, 'op_index': j, 'op': o, 'cwd_after': rec['cwd']})
